@@ -84,12 +84,18 @@ def gen(t, tier):
             # a single-colour tile: stored as a link to a file shared by all tiles of that colour
             sc['tiles'][-1].append(t.pick([[255, 0, 0], [0, 0, 255]]))
     nlev = {'global2': 4, 'sqrt2': 6}.get(gk) or len(sc['grid']['res'])
-    levels = t.weighted([('all', 1), ('list', 3), ('range', 2)])
+    levels = t.weighted([('all', 1), ('list', 3), ('range', 2), ('open', 2)])
     if levels == 'list':
         sc['levels'] = sorted(set(t.choice(nlev) for _ in range(t.randint(1, 3))))
+        if t.chance(0.2):
+            sc['levels'].append(99)         # not a level of this grid: to be ignored
     elif levels == 'range':
         a = t.choice(nlev)
         sc['levels'] = {'from': a, 'to': t.randint(a, nlev - 1)}
+    elif levels == 'open':
+        # ranges with one end left out, ending at level 0, or reaching beyond the last level
+        sc['levels'] = t.pick([{'to': 0}, {'from': 0, 'to': 0}, {'to': t.choice(nlev)}, {'from': t.choice(nlev)},
+                               {'from': t.choice(nlev), 'to': 99}])
     else:
         sc['levels'] = None
     if has_ts:
@@ -117,10 +123,15 @@ def gen(t, tier):
         # not a rectangle: a polygon (triangle / L-shape that reaches all four borders of the grid) or two separate
         # boxes in opposite corners - their bounding box spans the grid, their area does not
         sc['coverage'] = ['shape', t.pick(['triangle', 'lshape', 'corners', 'corners2']), t.choice(1000)]
+    sc['tz'] = t.pick(C.TIMEZONES)
     return sc
 
 
 def shrink(sc):
+    if sc.get('tz', 'UTC') != 'UTC':
+        c = copy.deepcopy(sc)
+        c['tz'] = 'UTC'
+        yield c
     n = len(sc['tiles'])
     size = n // 2
     while size >= 1:
@@ -146,7 +157,7 @@ def shrink(sc):
 
 
 def _iso(ts):
-    return _time.strftime('%Y-%m-%dT%H:%M:%S', _time.gmtime(ts))
+    return C.iso_local(ts)
 
 
 def _tile_bbox(c, meta, grid):
@@ -172,6 +183,11 @@ def _overlap_area(a, b):
 
 
 def run(sc, tape):
+    with C.local_timezone(sc.get('tz')):
+        return _run(sc, tape)
+
+
+def _run(sc, tape):
     seeder = C.import_seeder_threaded()
     import datetime as real_dt
     import mapproxy.util.times as times
@@ -403,9 +419,9 @@ def run(sc, tape):
         if sc['levels'] is None:
             sel = set(range(nlev))
         elif isinstance(sc['levels'], list):
-            sel = set(sc['levels'])
+            sel = set(l for l in sc['levels'] if l < nlev)
         else:
-            sel = set(range(sc['levels']['from'], sc['levels']['to'] + 1))
+            sel = set(range(sc['levels'].get('from', 0), min(sc['levels'].get('to', nlev - 1), nlev - 1) + 1))
         from shapely.geometry import box as sbox
         fresh_cache = [tmx for _, _, tmx in F.make_app(conf)[1].caches['c1'].caches()][0].cache
         n_removed = n_kept = 0
